@@ -281,6 +281,17 @@ def h_saveload(k1: bytes, k2: bytes, sel: int, shape: str) -> None:
     ix2 = info['index']
     check(list(ix2.items()) == model.items(), 'index changed by save/load')
     check(ix2.minKey() == model.keys()[0] and ix2.maxKey() == model.keys()[-1], 'min/max changed by save/load')
+    # every other answer of the ordered-map interface as well
+    n = len(model.keys())
+    check(len(ix2) == n, 'length changed by save/load', len(ix2), n)
+    check(bool(ix2) == (n > 0), 'truth value changed by save/load')
+    check(list(ix2.keys()) == model.keys() and k1 in ix2 and ix2.get(k2) == model[k2] and ix2[k1] == model[k1], 'lookups changed by save/load')
+    ix3 = FI.fsIndex(ix2)
+    check(list(ix3.items()) == model.items() and len(ix3) == n, 'an index constructed from a loaded index differs')
+    del ix2[k1]
+    check(len(ix2) == n - 1 and k1 not in ix2, 'delete after save/load wrong', len(ix2))
+    ix2[k1] = model[k1]
+    check(len(ix2) == n and list(ix2.items()) == model.items(), 're-insert after save/load wrong', len(ix2))
     reached()
 
 
